@@ -18,38 +18,39 @@ structure Claim where
 def h0 (i : Ing) : String := (i.rules.head?.map (·.1)).getD ""
 
 /-- A cert-manager challenge Ingress is served through the VirtualServer of its host, not on its own. -/
-def converted (s : State) (i : Ing) : Bool :=
+def converted (s : Objs) (i : Ing) : Bool :=
   s.cfg.certManager && i.chal && s.vss.any (fun kv => kv.2.host = h0 i)
 
-def ingClaims (s : State) : List Claim :=
+def ingClaims (s : Objs) : List Claim :=
   s.ings.flatMap fun kv =>
     let i := kv.2
     if isMinion i || converted s i then [] else
       i.rules.map fun r => ⟨r.1, "Ingress/" ++ i.md.key, i.md⟩
 
-def vsClaims (s : State) : List Claim :=
+def vsClaims (s : Objs) : List Claim :=
   s.vss.map fun kv => ⟨kv.2.host, "VirtualServer/" ++ kv.2.md.key, kv.2.md⟩
 
-def tsClaims (s : State) : List Claim :=
+def tsClaims (s : Objs) : List Claim :=
   if !s.cfg.passthrough then [] else
   s.tss.filterMap fun kv =>
     if isPassthroughTS kv.2 then some ⟨kv.2.host, "TransportServer/" ++ kv.2.md.key, kv.2.md⟩ else none
 
-def claims (s : State) : List Claim := ingClaims s ++ vsClaims s ++ tsClaims s
+def claims (s : Objs) : List Claim := ingClaims s ++ vsClaims s ++ tsClaims s
 
-/-- The champion among a list of claims: the one that beats every other one. -/
+/-- The champion among a list of claims: the one that beats every other one
+(claims of distinct resources carry distinct UIDs). -/
 def champion (cl : List Claim) : Option Claim :=
-  cl.find? fun c => cl.all fun c' => c'.key = c.key || beats c.md c'.md
+  cl.find? fun c => cl.all fun c' => c'.md.uid = c.md.uid || beats c.md c'.md
 
 /-- **Owner of a host** = the claimant of that host that beats all other claimants of it. -/
-def owner (s : State) (h : String) : Option String :=
+def owner (s : Objs) (h : String) : Option String :=
   (champion ((claims s).filter (·.host = h))).map (·.key)
 
 def insertSorted (x : String) : List String → List String
   | [] => [x]
   | y :: r => if x < y then x :: y :: r else if x = y then y :: r else y :: insertSorted x r
 
-def hostsOf (s : State) : List String := (claims s).foldl (fun l c => insertSorted c.host l) []
+def hostsOf (s : Objs) : List String := (claims s).foldl (fun l c => insertSorted c.host l) []
 
 /-! ### listeners -/
 
@@ -59,7 +60,7 @@ structure LClaim where
   md : Meta
   l : Listener
 
-def lclaims (s : State) : List LClaim :=
+def lclaims (s : Objs) : List LClaim :=
   match s.gc with
   | none => []
   | some ls =>
@@ -70,17 +71,17 @@ def lclaims (s : State) : List LClaim :=
         ⟨lkey l.name t.host, "TransportServer/" ++ t.md.key, t.md, l⟩
 
 def lchampion (cl : List LClaim) : Option LClaim :=
-  cl.find? fun c => cl.all fun c' => c'.key = c.key || beats c.md c'.md
+  cl.find? fun c => cl.all fun c' => c'.md.uid = c.md.uid || beats c.md c'.md
 
-def lowner (s : State) (lk : String) : Option LClaim := lchampion ((lclaims s).filter (·.lk = lk))
+def lowner (s : Objs) (lk : String) : Option LClaim := lchampion ((lclaims s).filter (·.lk = lk))
 
-def lkeysOf (s : State) : List String := (lclaims s).foldl (fun l c => insertSorted c.lk l) []
+def lkeysOf (s : Objs) : List String := (lclaims s).foldl (fun l c => insertSorted c.lk l) []
 
 /-! ### composition -/
 
 /-- Minions of a master host, in key order, each with the verdict for each of its paths:
 a path is served by the minion that beats every other minion listing it. -/
-def minionsOf (s : State) (host : String) : List (Ing × List (String × Bool)) :=
+def minionsOf (s : Objs) (host : String) : List (Ing × List (String × Bool)) :=
   let ms := (s.ings.filter fun kv => isMinion kv.2 && h0 kv.2 = host).map (·.2)
   ms.map fun m =>
     let paths := (m.rules.head?.map (·.2)).getD []
@@ -91,7 +92,7 @@ def minionsOf (s : State) (host : String) : List (Ing × List (String × Bool)) 
 /-- Routes attached to a VirtualServer: for each `route:` entry in order, the stored
 VirtualServerRoute under that key iff its host equals the VirtualServer's and its
 subroutes obey the path rule; then the challenge routes of the host. -/
-def routesOf (s : State) (v : VS) : List String :=
+def routesOf (s : Objs) (v : VS) : List String :=
   let regular := v.routes.filterMap fun (path, ref) =>
     if ref = "" then none else
     let key := if ref.contains '/' then ref else v.md.ns ++ "/" ++ ref
@@ -104,7 +105,7 @@ def routesOf (s : State) (v : VS) : List String :=
 
 /-! ### status of every known object -/
 
-def tsStatus (s : State) (t : TS) : String :=
+def tsStatus (s : Objs) (t : TS) : String :=
   let k := "TransportServer/" ++ t.md.key
   if isPassthroughTS t then
     if !s.cfg.passthrough then "unknown" else
@@ -121,7 +122,7 @@ def tsStatus (s : State) (t : TS) : String :=
       | some c => if c.key = k then "active" else "listener-taken"
       | none => "listener-missing"
 
-def status (s : State) : List (String × String) :=
+def status (s : Objs) : List (String × String) :=
   let ing := s.ings.filterMap fun kv =>
     let i := kv.2
     let k := "Ingress/" ++ i.md.key
@@ -148,7 +149,7 @@ def status (s : State) : List (String × String) :=
 def join (sep : String) (l : List String) : String := sep.intercalate l
 def b01 (b : Bool) : String := if b then "1" else "0"
 
-def render (s : State) : String :=
+def render (s : Objs) : String :=
   let o := (hostsOf s).filterMap fun h => (owner s h).map fun k => h ++ "=" ++ k
   let lo := (lkeysOf s).filterMap fun lk => (lowner s lk).map fun c =>
     s!"{lk}={c.key}:{c.l.port}:{c.l.v4}:{c.l.v6}"
